@@ -69,7 +69,11 @@ func vC01Bare(L int) {
 		obs = NewEventuallySafeObservableWithContext(subscribe)
 	}
 	rec := &vRecorder{}
-	obs.SubscribeWithContext(context.Background(), vObs(rec, vFlatInt))
+	if vChoice("raw", 2) == 1 {
+		obs.SubscribeWithContext(context.Background(), &vRawObserver{rec})
+	} else {
+		obs.SubscribeWithContext(context.Background(), vObs(rec, vFlatInt))
+	}
 	for _, st := range in[cut:] {
 		vEmit(dest, context.Background(), st)
 	}
